@@ -112,6 +112,9 @@ def abstract_faults(awb, requireds, rng):
         st = ty[0]
         if st in ('pipeline', 'slurry', 'pump'):
             out.append((f'delete sheet {title}', awb[:i] + awb[i + 1:]))
+        if st in ('pipeline', 'slurry'):
+            # a second sheet of a required type (its title also carries the type word): "exactly one" must be enforced
+            out.append((f'duplicate sheet {title}', awb[:i + 1] + [(title + ' copy', names)] + awb[i + 1:]))
         for j, (nm, (k, v)) in enumerate(names):
             if nm not in requireds[st]:
                 continue
